@@ -295,6 +295,17 @@ func (h *VerifHarness) TopPath() string { return h.Ps.getNode().path }
 
 func effect(site, op, p string) bool { return vshim.Effect("job:"+site, op, p) }
 
+// jobWrite is a plain (non-atomic) file write by the job process; it
+// reports whether the write was performed completely.
+func jobWrite(site, p string, data []byte) bool {
+	if effect(site, "write", p) {
+		os.WriteFile(p, data, 0o644)
+		return true
+	}
+	vshim.Torn(p, data, 0o644)
+	return false
+}
+
 // JobStart performs what happens between the job manager launching the
 // process and the stage code being entered: _stdout/_stderr created,
 // _queued_locally removed (local job manager), then the monitor (mrjob)
@@ -305,12 +316,8 @@ func (h *VerifHarness) JobStart(j *VerifJob, pid int) {
 		return
 	}
 	md := j.job
-	if effect("stdout", "write", md.MetadataFilePath(StdOut)) {
-		os.WriteFile(md.MetadataFilePath(StdOut), []byte("[stdout]\n"), 0o644)
-	}
-	if effect("stderr", "write", md.MetadataFilePath(StdErr)) {
-		os.WriteFile(md.MetadataFilePath(StdErr), []byte("[stderr]\n"), 0o644)
-	}
+	jobWrite("stdout", md.MetadataFilePath(StdOut), []byte("[stdout]\n"))
+	jobWrite("stderr", md.MetadataFilePath(StdErr), []byte("[stderr]\n"))
 	if effect("dequeue", "remove", md.MetadataFilePath(QueuedLocally)) {
 		os.Remove(md.MetadataFilePath(QueuedLocally))
 	}
@@ -337,10 +344,8 @@ func (h *VerifHarness) JobStart(j *VerifJob, pid int) {
 }
 
 func (h *VerifHarness) journal(md *Metadata, name MetadataFileName) {
-	fname := md.journalPath + "." + md.journalPrefix + string(name)
-	if effect("journal", "write", fname) {
-		md.UpdateJournal(name)
-	}
+	// Metadata.UpdateJournal is itself a numbered effect (rewritten os.WriteFile)
+	md.UpdateJournal(name)
 }
 
 // VerifJobInput is what the stage code of a job can read.
@@ -372,9 +377,7 @@ func (h *VerifHarness) JobRead(j *VerifJob) VerifJobInput {
 // followed by a journal entry).
 func (h *VerifHarness) JobWriteRaw(j *VerifJob, name string, data []byte, journal bool) {
 	fn := MetadataFileName(name)
-	if effect("adapter:"+name, "write", j.job.MetadataFilePath(fn)) {
-		os.WriteFile(j.job.MetadataFilePath(fn), data, 0o644)
-	}
+	jobWrite("adapter:"+name, j.job.MetadataFilePath(fn), data)
 	if journal {
 		h.journal(j.job, fn)
 	}
@@ -383,10 +386,8 @@ func (h *VerifHarness) JobWriteRaw(j *VerifJob, name string, data []byte, journa
 // JobWriteFile lets the stage code write an output file under its files
 // directory (or anywhere else).
 func (h *VerifHarness) JobWriteFile(j *VerifJob, p string, data []byte) {
-	if effect("stagefile", "write", p) {
-		os.MkdirAll(path.Dir(p), 0o755)
-		os.WriteFile(p, data, 0o644)
-	}
+	os.MkdirAll(path.Dir(p), 0o755)
+	jobWrite("stagefile", p, data)
 }
 
 // JobBodyDone marks the stage code as having returned.
@@ -397,7 +398,7 @@ func (h *VerifHarness) JobBodyDone(j *VerifJob, info string) {
 
 // JobFinish performs mrjob's termination protocol.  how is one of
 // complete | errors | assert | none (process vanished without a trace).
-func (h *VerifHarness) JobFinish(j *VerifJob, how, msg string) {
+func (h *VerifHarness) JobFinish(j *VerifJob, how, msg string) (recorded bool) {
 	md := j.job
 	if how != "none" {
 		var ji JobInfo
@@ -410,19 +411,13 @@ func (h *VerifHarness) JobFinish(j *VerifJob, how, msg string) {
 	}
 	switch how {
 	case "complete":
-		if effect("complete", "write", md.MetadataFilePath(CompleteFile)) {
-			os.WriteFile(md.MetadataFilePath(CompleteFile), []byte(util.Timestamp()), 0o644)
-		}
+		recorded = jobWrite("complete", md.MetadataFilePath(CompleteFile), []byte(util.Timestamp()))
 		h.journal(md, CompleteFile)
 	case "errors":
-		if effect("errors", "write", md.MetadataFilePath(Errors)) {
-			os.WriteFile(md.MetadataFilePath(Errors), []byte(msg), 0o644)
-		}
+		jobWrite("errors", md.MetadataFilePath(Errors), []byte(msg))
 		h.journal(md, Errors)
 	case "assert":
-		if effect("assert", "write", md.MetadataFilePath(Assert)) {
-			os.WriteFile(md.MetadataFilePath(Assert), []byte(msg), 0o644)
-		}
+		jobWrite("assert", md.MetadataFilePath(Assert), []byte(msg))
 		h.journal(md, Assert)
 	case "jm-errors":
 		// The local job manager notices a failed process which left no
@@ -435,6 +430,7 @@ func (h *VerifHarness) JobFinish(j *VerifJob, how, msg string) {
 	}
 	j.Step = 3
 	h.event("finish", j.Key(), how)
+	return recorded
 }
 
 // Pending returns the jobs which have not finished, in submission order.
